@@ -433,3 +433,33 @@ func (e *Exec) knownCall(fr *Frame, st *State, x *ssa.Call, callee *ssa.Function
 	}
 	return nil, true, false
 }
+
+// InlineClosure returns the functions that may be inlined (transitively, up
+// to the inline depth) when the roots are executed.
+func InlineClosure(p *Prog, roots []*ssa.Function, opt *Options) map[*ssa.Function]bool {
+	e := NewExec(p, opt)
+	out := map[*ssa.Function]bool{}
+	var walk func(fn *ssa.Function, fr *Frame)
+	walk = func(fn *ssa.Function, fr *Frame) {
+		for _, b := range fn.Blocks {
+			for _, in := range b.Instrs {
+				c, ok := in.(*ssa.Call)
+				if !ok {
+					continue
+				}
+				callee := c.Call.StaticCallee()
+				if callee == nil || p.NoReturn[callee] {
+					continue
+				}
+				if e.canInline(fr, callee) {
+					out[callee] = true
+					walk(callee, &Frame{fn: callee, parent: fr, depth: fr.depth + 1})
+				}
+			}
+		}
+	}
+	for _, r := range roots {
+		walk(r, &Frame{fn: r})
+	}
+	return out
+}
